@@ -32,6 +32,12 @@ for _w in ("data_", "save_", "loop_", "stop_", "global_"):
             WORDS.append("".join(_cs) + _tail)
 # near misses of the reserved words
 WORDS += ["data", "dat_a", "save", "sav_", "loop", "lo_op_", "stop", "stop_x", "global", "globa_l", "xdata_", "xloop_", " loop_", "loop_ "]
+# several lines whose FIRST or LAST line is within a few characters of the limit (the delimiters share those lines): for the
+# small limits of the argument sets and for the real one
+for _n in (2, 3, 4, 5, 6, 7, 8):
+    WORDS += ["a" * _n + "\nx", "x\n" + "a" * _n, "a" * _n + "\n" + "b" * _n]
+for _n in (2043, 2044, 2045, 2046, 2047, 2048):
+    WORDS += ["a" * _n + "\nx", "x\n" + "a" * _n, "a" * _n + "\ny'z", "x\"y\n" + "a" * _n]
 WORDS = list(dict.fromkeys(WORDS))
 
 
